@@ -424,7 +424,7 @@ int main(int argc, char** argv) {
   std::string line;
   while (std::getline(std::cin, line)) {
     std::string out;
-    alarm(30);  // per-case watchdog: a hang kills this process with SIGALRM, the runner resumes after the case
+    alarm(20);  // per-case watchdog (cases normally take microseconds): a hang kills this process with SIGALRM, the runner resumes after the case
     try {
       out = run_case(line);
     } catch (std::exception& e) {
